@@ -298,6 +298,16 @@ macro_rules! harnesses {
             }
             Some((done, skipped, None))
         }
+        /// Engine R: re-evaluate one sampled input (replay of a recorded breach).
+        #[cfg(not(kani))]
+        pub fn sample_one(name: &str, sample_seed: u64) -> Option<Chk> {
+            std::panic::set_hook(std::boxed::Box::new(|_| {}));
+            let mut s = Rand::new(sample_seed);
+            match std::panic::catch_unwind(std::panic::AssertUnwindSafe(|| dispatch(name, &mut s))) {
+                Ok(r) => r,
+                Err(_) => Some(Err("a panic escaped from the code under test (debug assertion, overflow check or unexpected panic)")),
+            }
+        }
         #[cfg(not(kani))]
         pub const HARNESSES: &[&str] = &[ $( stringify!($name), )* $( stringify!($nname), )* ];
     };
